@@ -477,5 +477,8 @@ func init() {
 		Rule:      "subsets of the 26 struct options (+ logging level separately) each set to one of two non-zero values; all 2^11 / 2^5 / 2^3 override-key subsets; size strings digits[sep digits][blanks]unit; placeholder layouts x variables set/unset. Every case is distinct by construction",
 		Assume:    []string{"documented defaults transcribed from README.md (membership type: the code's 'couchbase')", "size strings with <= 3 fraction digits: exact product compared, float error cannot hide a wrong factor"},
 		Pure:      c17Pure,
+		Instances: func(tier string) []Instance {
+			return []Instance{{Scenario: "c17_shared", Params: mustJSON(struct{}{}), Bound: 0, Shards: 2, Note: "explicitly set values as seen by a concurrent reader at every scheduling point (incl. every log call) of the real newDcp"}}
+		},
 	})
 }
